@@ -345,3 +345,68 @@ func SizeClass(frameLen int) int {
 	}
 	return 4
 }
+
+// Bulk draws a valid packet whose repeated section holds thousands of tiny
+// elements (filters, reason codes, user properties, subscription
+// identifiers): the shape on which super-linear decoding or encoding shows.
+func Bulk(t *sim.Tape, thorough bool) *ref.AP {
+	g := &G{T: t, Thorough: thorough}
+	n := 200 + t.Int(3000)
+	if thorough && t.Bool(1, 4) {
+		n = 3000 + t.Int(9000)
+	}
+	tiny := func() []byte { return g.Str(1 + t.Int(2)) }
+	ups := func(k int) []ref.Prop {
+		ps := make([]ref.Prop, 0, k)
+		for i := 0; i < k; i++ {
+			p := ref.Prop{ID: 0x26, K: tiny(), V: []byte{}}
+			if t.Bool(1, 2) {
+				p.V = tiny()
+			}
+			ps = append(ps, p)
+		}
+		return ps
+	}
+	switch t.Int(7) {
+	case 0:
+		a := &ref.AP{Type: ref.Subscribe, Flags: 2, PacketID: 1 + uint16(t.Int(65535))}
+		for i := 0; i < n; i++ {
+			a.Filters = append(a.Filters, ref.Filter{Name: tiny(), Opts: byte(t.Int(3))})
+		}
+		return a
+	case 1:
+		a := &ref.AP{Type: ref.Unsubscribe, Flags: 2, PacketID: 1 + uint16(t.Int(65535))}
+		for i := 0; i < n; i++ {
+			a.Filters = append(a.Filters, ref.Filter{Name: tiny()})
+		}
+		return a
+	case 2:
+		typ := []byte{ref.SubAck, ref.UnsubAck}[t.Int(2)]
+		a := &ref.AP{Type: typ, PacketID: 1 + uint16(t.Int(65535))}
+		for i := 0; i < 8*n; i++ {
+			a.Codes = append(a.Codes, []byte{0, 0x80, 0x87}[t.Int(3)])
+		}
+		return a
+	case 3:
+		a := &ref.AP{Type: ref.Publish, Topic: []byte("t"), Payload: tiny()}
+		a.Props = ups(n)
+		return a
+	case 4:
+		a := &ref.AP{Type: ref.Publish, Topic: []byte("t")}
+		for i := 0; i < n; i++ {
+			a.Props = append(a.Props, ref.Prop{ID: 0x0B, N: uint32(1 + t.Int(200))})
+		}
+		return a
+	case 5:
+		a := &ref.AP{Type: ref.Connect, ProtoName: []byte("MQTT"), ProtoVer: 5, ClientID: tiny()}
+		a.Props = ups(n)
+		a.Will = &ref.Will{Topic: tiny(), Payload: tiny(), Props: ups(n / 2)}
+		a.ConnFlags = ref.CFWill
+		return a
+	default:
+		typ := []byte{ref.ConnAck, ref.PubAck, ref.Disconnect, ref.Auth, ref.PubRel}[t.Int(5)]
+		a := &ref.AP{Type: typ, Flags: ref.ReservedFlags(typ), PacketID: 7, Reason: 0}
+		a.Props = ups(n)
+		return a
+	}
+}
